@@ -15,8 +15,8 @@ Section Reent.
   Variable strat : strategy.
   Variable nconns : nat.
   Variable tgt : nat -> N.
-  Notation step := (step strat true nconns tgt).
-  Notation reachable := (reachable strat true nconns tgt).
+  Notation step := (step strat true false nconns tgt).
+  Notation reachable := (reachable strat true false nconns tgt).
 
   (** Run holds the outer RLock and calls the inner one; waiter w has announced Lock() *)
   Definition reent_dead (u : msg) (w : nat) (s : state) : Prop :=
@@ -34,7 +34,7 @@ Section Reent.
   Proof. intros Hd Hr. induction Hr; [exact Hd|eapply reent_dead_stable; eassumption]. Qed.
 
   (** the holder of the lock (Run, as a reader) has no enabled step *)
-  Lemma reent_dead_stuck u w s : reent_dead u w s -> ~ holder_can_step strat true nconns tgt s.
+  Lemma reent_dead_stuck u w s : reent_dead u w s -> ~ holder_can_step strat true false nconns tgt s.
   Proof.
     intros (Hp & Hrd & Hwr & Hq & Hpc). unfold holder_can_step. rewrite Hwr.
     unfold PoolWait.step. rewrite Hp. unfold no_writer. rewrite Hwr, Hq. cbn [andb].
@@ -68,25 +68,25 @@ Definition reent_trace : list label :=
     LSubWant 0 ].                      (* WaitMasterchainSeqno -> subscribe -> p.mu.Lock() announced *)
 
 Lemma reent_trace_runs :
-  exists s, run BestPing true 1 (fun _ => 5%N) (init_state (fun _ => 0%N) (Some 0)) reent_trace = Some s /\
+  exists s, run BestPing true false 1 (fun _ => 5%N) (init_state (fun _ => 0%N) (Some 0)) reent_trace = Some s /\
             reent_dead (0, 1%N) 0 s.
 Proof. eexists. split; [vm_compute; reflexivity|]. unfold reent_dead. sred. repeat apply conj; reflexivity. Qed.
 
 (** the same schedule on the real code completes (the caller subscribes after Run has
     finished the notification) *)
 Lemma reent_trace_real_code_completes :
-  exists s, run BestPing false 1 (fun _ => 5%N) (init_state (fun _ => 0%N) (Some 0))
+  exists s, run BestPing false false 1 (fun _ => 5%N) (init_state (fun _ => 0%N) (Some 0))
               (reent_trace ++ [LRUnlock; LSubLock 0; LSubBody 0]) = Some s /\
             wpc s 0 = WWait /\ rpc s = RIdle /\ readers s = 0 /\ writer s = None /\ wreq s = None.
 Proof. eexists. split; [vm_compute; reflexivity|]. repeat apply conj; reflexivity. Qed.
 
 Lemma run_reachable_m strat nconns tgt ls : forall s0 s s',
-  reachable strat true nconns tgt s0 s -> run strat true nconns tgt s ls = Some s' ->
-  reachable strat true nconns tgt s0 s'.
+  reachable strat true false nconns tgt s0 s -> run strat true false nconns tgt s ls = Some s' ->
+  reachable strat true false nconns tgt s0 s'.
 Proof.
   induction ls as [|l t IH]; intros s0 s s' Hr Hrun; cbn [run] in Hrun.
   - injection Hrun as <-. exact Hr.
-  - destruct (step strat true nconns tgt s l) as [s1|] eqn:Hs; [|discriminate].
+  - destruct (step strat true false nconns tgt s l) as [s1|] eqn:Hs; [|discriminate].
     eapply IH; [|exact Hrun]. eapply reach_step; eassumption.
 Qed.
 
@@ -95,9 +95,9 @@ Qed.
     parked in the inner RLock and the caller stays in Lock() *)
 Theorem pool_never_blocks_refuted_reentrant_rlock :
   exists strat nconns tgt heads b s,
-    reachable strat true nconns tgt (init_state heads b) s /\
-    forall s', reachable strat true nconns tgt s s' ->
-      ~ holder_can_step strat true nconns tgt s' /\ rpc s' = RInner (0, 1%N) /\ wpc s' 0 = WSubW.
+    reachable strat true false nconns tgt (init_state heads b) s /\
+    forall s', reachable strat true false nconns tgt s s' ->
+      ~ holder_can_step strat true false nconns tgt s' /\ rpc s' = RInner (0, 1%N) /\ wpc s' 0 = WSubW.
 Proof.
   exists BestPing, 1, (fun _ => 5%N), (fun _ => 0%N), (Some 0).
   destruct reent_trace_runs as (s & Hrun & Hd). exists s.
@@ -106,3 +106,53 @@ Proof.
   split; [eapply reent_dead_stuck; exact Hd'|].
   destruct Hd' as (H1 & _ & _ & _ & H5). auto.
 Qed.
+
+(** ---- Run merging the queued head updates ([coal = true]) ----
+    "Lite servers report the same block within milliseconds: take what is already queued
+    and wake the waiters once, with the newest head."  An update is per connection, so
+    when the surviving update belongs to a connection that is not the best one, the best
+    connection's update that was merged into it is lost: notifySubscribers drops the
+    survivor.  The real Run handles the queued updates one by one, oldest first
+    (Proofs/PoolWaitFifoP.v). *)
+Definition coal_trace : list label :=
+  [ LSubWant 0; LSubLock 0; LSubBody 0;   (* WaitMasterchainSeqno(7), best connection 0 at head 5: registered *)
+    LSetHead 0 7; LPublish 0;             (* the best connection reports head 7 ...                          *)
+    LSetHead 1 7; LPublish 0;             (* ... and so does connection 1, before Run is scheduled           *)
+    LTake;                                (* Run: one receive + drain -> the survivor is (1, 7)             *)
+    LRLock [0]; LRUnlock ].               (* notifySubscribers: not bestConn's update -> nobody is notified *)
+
+Lemma run_reachable_g strat re co nconns tgt ls : forall s0 s s',
+  reachable strat re co nconns tgt s0 s -> run strat re co nconns tgt s ls = Some s' ->
+  reachable strat re co nconns tgt s0 s'.
+Proof.
+  induction ls as [|l t IH]; intros s0 s s' Hr Hrun; cbn [run] in Hrun.
+  - injection Hrun as <-. exact Hr.
+  - destruct (step strat re co nconns tgt s l) as [s1|] eqn:Hs; [|discriminate].
+    eapply IH; [|exact Hrun]. eapply reach_step; eassumption.
+Qed.
+
+(** REFUTED for the merging design ("success if the best connection reports a head at or
+    beyond the seqno in time"): the waiter is registered and in its loop, the best
+    connection is at its target, that head was published and consumed by Run, nothing is
+    queued or in flight, Run is back in its select — and the waiter has been sent nothing *)
+Theorem wait_success_refuted_coalescing_run :
+  exists strat nconns tgt heads b s,
+    reachable strat false true nconns tgt (init_state heads b) s /\
+    wpc s 0 = WWait /\ In (wid s 0, 0) (wl s) /\ best s = Some 0 /\ (tgt 0%nat <= head s 0%nat)%N /\
+    updq s = [] /\ pend s = [] /\ rpc s = RIdle /\ wch s 0 = None /\ woff s 0 = [].
+Proof.
+  exists BestPing, 2, (fun _ => 7%N), (fun _ => 5%N), (Some 0).
+  destruct (run BestPing false true 2 (fun _ => 7%N) (init_state (fun _ => 5%N) (Some 0)) coal_trace)
+    as [s|] eqn:Hrun; [|vm_compute in Hrun; discriminate].
+  exists s. split; [eapply run_reachable_g; [apply reach_init|exact Hrun]|].
+  vm_compute in Hrun. injection Hrun as <-. sred.
+  repeat apply conj; try reflexivity; try (left; reflexivity); try (vm_compute; discriminate).
+Qed.
+
+(** the same arrivals on the real code: two iterations of Run, the first one notifies *)
+Lemma coal_schedule_real_code_delivers :
+  exists s, run BestPing false false 2 (fun _ => 7%N) (init_state (fun _ => 5%N) (Some 0))
+              [LSubWant 0; LSubLock 0; LSubBody 0; LSetHead 0 7; LPublish 0; LSetHead 1 7; LPublish 0;
+               LTake; LRLock [0]; LSend; LRUnlock; LTake; LRLock [0]; LRUnlock; LRecv 0] = Some s /\
+            wgot s 0 = Some (0, 7%N) /\ wpc s 0 = WUnsub ROk /\ updq s = [].
+Proof. eexists. split; [vm_compute; reflexivity|]. repeat apply conj; reflexivity. Qed.
